@@ -154,6 +154,15 @@ def sweep_docs(fmt, quick):
                 docs.append(list(b"[$S#U\x02" + (ulen(L) + plain) * 2))
                 docs.append(list(b"[$U#" + ulen(L) + plain))
     if fmt == "ubjson":
+        # a typed container followed by counted / plain containers of other content (whatever the typed header left behind)
+        pays = dict(i=b"\x05", U=b"\x05", I=b"\x01\x02", l=b"\x00\x00\x01\x02", L=b"\x00" * 7 + b"\x09", d=b"\x3f\x80\x00\x00",
+                    D=b"\x3f\xf0" + b"\x00" * 6, C=b"c", S=b"U\x01x", T=b"", F=b"", Z=b"")
+        for t, pay in pays.items():
+            tb = t.encode()
+            for A in (b"[$" + tb + b"#U\x01" + pay, b"{$" + tb + b"#U\x01U\x01a" + pay):
+                for B in (b"{#U\x01U\x01bSU\x01x", b"{#U\x02U\x01bTU\x01ci\x05", b"[#U\x02SU\x01xi\x01", b"{U\x01bZ}", b"[[]T]"):
+                    docs.append(list(b"[" + A + B + b"]"))
+                    docs.append(list(b"{U\x01pU\x01qU\x01r".replace(b"U\x01q", A, 1).replace(b"U\x01r", b"U\x01r" + B, 1) + b"}"))
         # payloads that start with the byte value of a marker, where no marker is expected (typed containers, texts)
         size = dict(i=1, U=1, C=1, I=2, l=4, L=8, d=4, D=8)
         for m in b"NZTF[]{}#$iUIlLdDCSH":
@@ -586,6 +595,7 @@ def c08(ctx):
             for j, p in enumerate(parts):
                 d += p + (sep if rnd.random() < 0.5 else [])
             docs.append(d)
+        docs += sweep_docs(src, True)       # strings/names of every length 0..71 (+boundaries), marker-valued lengths and payloads, 64-bit literals
         for doc in docs:
             for tgt in ("json", "ubjson", "cborl"):
                 entry = ["parse", "reader", "write"][n % 3]
@@ -599,7 +609,8 @@ def c08(ctx):
     return run.decide(
         ctx, "TraceCodec", cases, tf, failed, nv, level_note="",
         rule="valid source documents enumerated by TLC from each format automaton (incl. shapes only foreign encoders produce: non-minimal "
-             "CBOR widths, byte strings, UBJSON typed containers/H/C, JSON escapes and 64-bit boundary numbers), single and as concatenated "
+             "CBOR widths, byte strings, UBJSON typed containers/H/C, JSON escapes and 64-bit boundary numbers, strings and names of every "
+             "length 0..71 and around 128/256), single and as concatenated "
              "streams of 2-3 container documents, x 3 targets, fed through Parse / ParseReader with short reads / bytewise Write into the "
              "real target encoder; TraceCodec decodes source and target bytes with the two reference automata and compares the values "
              "under the target's representation rules. Distinct = distinct (document, pair, entry, chunking); non-trivial = at least 3 bytes.",
@@ -750,7 +761,11 @@ def c18(ctx):
         # values whose tokens are longer than the parsers' internal buffers, so that a token spans several reads
         longdocs = [d for d in sweep_docs(fmt, True) if 60 <= len(d) <= 320 and (fmt != "json" or is_container_doc("json", d))]
         rnd.shuffle(longdocs)
-        for j, ld in enumerate(longdocs[: 60 if ctx.quick else 400]):
+        markerdocs = []
+        if fmt != "json":       # lengths whose (last) length byte is a structural marker of the format
+            for L in (78, 84, 90, 91, 93, 123, 125, 381):
+                markerdocs += [enc_doc(fmt, {"k" * L: "v"}), enc_doc(fmt, ["s" * L, {"q": "r" * L}])]
+        for j, ld in enumerate(markerdocs + longdocs[: 60 if ctx.quick else 400]):
             other = rnd.choice(short or rows)
             if fmt == "json" and not is_container_doc("json", other):
                 other = other + [0x20]
@@ -759,7 +774,7 @@ def c18(ctx):
             n = len(d)
             cases.append(case("C18", "parse", fmt, doc=d, entry="decbytes", origin="stream"))
             if n > 40:
-                for k, buf in ((1, 1), (7, 7), (13, 16), (50, 64), (64, 64), (65, 100), (100, 1000), (3, 64)):
+                for k, buf in ((1, 1), (2, 64), (7, 7), (13, 16), (50, 64), (64, 64), (65, 100), (100, 1000), (3, 64)):
                     cases.append(case("C18", "parse", fmt, doc=d, entry="decreader", plan=[k] * (n // k + 1), buf=buf, eofwith=(k + j) % 2 == 0,
                                       origin="stream with long tokens"))
             if n <= maxall:
@@ -1161,6 +1176,21 @@ def c13(ctx):
             st = [streams.ev("objS", "objS", (), n, "any")] + [x for j in range(n) for x in (streams.ev("key", "keyref" if j % 2 else "key", list(b"k%d" % j)), streams.ev("int", "int8", streams.canon(j % 100)))] + [streams.ev("objE", "objE")]
             cases.append(case("C13", "unfold", "go", stream=st, sub=dict(T=MT, V0=gotypes.zero_vd(MT)), origin="%d members" % n))
             cases.append(case("C13", "unfold", "go", stream=st, sub=dict(T=dict(k="iface"), V0=gotypes.zero_vd(dict(k="iface"))), origin="%d members" % n))
+    # member names recurring across sibling objects, delivered by reference, with the unfolder's optional key cache on
+    names = [b"a", b"b", b"c", b"", b"dd", "\u00e9".encode()]
+    for hist in ([0, 1, 2, 0], [0, 1, 0, 1, 2, 0], [3, 0, 1, 3], [0, 1, 2, 3, 4, 5, 0, 2, 4], [4, 4, 5, 4]):
+        for cap in (0, 1, 2, 3):
+            for T in (dict(k="slice", e=[dict(k="map", e=[dict(k="int")])]), dict(k="slice", e=[dict(k="iface")]), dict(k="iface"),
+                      dict(k="map", e=[dict(k="map", e=[dict(k="int")])])):
+                outer_map = T["k"] == "map"
+                st = [streams.ev("objS" if outer_map else "arrS", "objS" if outer_map else "arrS", (), len(hist), "any")]
+                for j, h in enumerate(hist):
+                    if outer_map:
+                        st.append(streams.ev("key", "keyref", list(b"o%d" % j)))
+                    st += [streams.ev("objS", "objS", (), -1, "any"), streams.ev("key", "keyref", list(names[h])), streams.ev("int", "int8", streams.canon(j)),
+                           streams.ev("key", "keyref", list(names[(h + 1) % 6])), streams.ev("int", "int8", streams.canon(-j - 1)), streams.ev("objE", "objE")]
+                st.append(streams.ev("objE" if outer_map else "arrE", "objE" if outer_map else "arrE"))
+                cases.append(case("C13", "unfold", "go", stream=st, sub=dict(T=T, V0=gotypes.zero_vd(T), keycache=cap), origin="recurring member names, key cache %d" % cap))
     number(cases)
     tf, st = core.run_harness(ctx, cases)
     failed, nv = core.tlc_validate(ctx, "TraceCodec", tf)
